@@ -58,7 +58,7 @@ OBLIGATIONS = {
             "c02_readfault_counterexample", "c15_none", "c16_err"],
     "C03": ["sstep_inv", "estep_inv", "c03_pay_args", "c03_stay_held", "c03_ready_is_fee_test", "c12_sound"],
     "C04": ["sstep_inv", "estep_inv", "c04_bound", "c04_params", "c04_height", "c04_carried", "c04_unchanged",
-            "c04_low_expiry_rejects", "c20_max"],
+            "c04_low_expiry_rejects", "c20_max", "PcPred.step", "exp_step", "c04_pay_delay_bounded", "c04_end_to_end"],
     "C05": ["sstep_inv", "c05_pay_only_when_quiet", "c05_never_again"],
     "C07": ["sstep_inv", "estep_inv", "c07_same_response", "c07_reject_sticks", "c07_reject_no_pay", "c07_single_shot"],
     "C08": ["sstep_inv", "c08_write_ahead", "c08_marker_while_paying", "c08_pending_before_pay",
